@@ -294,9 +294,14 @@ def corr_divergence(ctx):
         p = Probe()
         p.divergenceTolerance = c[1]
         if c[0] == "s":
+            exact = abs(Fraction(c[3]) - Fraction(c[2]))
+            # the code subtracts floats: skip cases within rounding of the threshold (explicit exact margin)
+            if abs(exact - Fraction(c[1])) < Fraction(1, 10 ** 9) * max(1, abs(Fraction(c[2])), abs(Fraction(c[3]))):
+                ctx.hist("divergence_case", "skipped:at-threshold")
+                continue
             lines.append(f"C18 sdiv {fr(c[1])} {fr(c[2])} {fr(c[3])}")
             r = Simulation.valuesHaveDiverged(p, None, "x", c[2], c[3])
-            truth = abs(Fraction(c[3]) - Fraction(c[2])) > Fraction(c[1])
+            truth = exact > Fraction(c[1])
         else:
             lines.append("C18 vdiv {} {} {}".format(fr(c[1]), " ".join(map(fr, c[3])), " ".join(map(fr, c[2]))))
             r = Simulation.valuesHaveDiverged(p, None, "x", Vector(*c[2]), Vector(*c[3]))
